@@ -1,4 +1,5 @@
 import HcModel.CharHttp
+import HcModel.ChunkedWriter
 import HcModel.Drv.Util
 /-
   Driver op for the id dispatch of GET /characteristics (C09):
@@ -71,6 +72,30 @@ def handle : List String → String
       | .noContent204 => "204"
       | .body es => "207 " ++ " ".intercalate (es.map fun e => s!"{e.aid}.{e.iid}={e.status.getD 0}")
     | _, _ => "bad-op"
+  | _ => "bad-op"
+
+/- chunkw <n> <len> <a<k> | e<k>> …  — hap.chunkedWriter.Write of the body (i mod 251)_{i<len} in chunks of n over a writer
+   whose calls accept k bytes (`a`) or fail (`e`), then keep the contract.
+   →  <nn> <ok|err> off=<len>@<first byte>,… acc=<len>,…   | bad-op (n = 0 is refused: the Go loop would not end) -/
+def pResp (s : String) : Option Hc.ChunkedWriter.Resp :=
+  match s.toList with
+  | 'a' :: r => (String.ofList r).toNat?.map fun k => ⟨k, false⟩
+  | 'e' :: r => (String.ofList r).toNat?.map fun k => ⟨k, true⟩
+  | _ => none
+
+def showPiece (c : Bytes) : String :=
+  s!"{c.length}@{match c with | b :: _ => b.toNat | [] => 999}"
+
+def handleChunkw : List String → String
+  | n :: len :: rest =>
+    match n.toNat?, len.toNat?, optAll (rest.map pResp) with
+    | some n, some len, some script =>
+      if hn : 0 < n then
+        let body : Bytes := (List.range len).map fun i => UInt8.ofNat (i % 251)
+        let o := Hc.ChunkedWriter.write n hn body script
+        s!"{o.nn} {if o.err then "err" else "ok"} off={",".intercalate (o.offered.map showPiece)} acc={",".intercalate (o.accepted.map fun c => toString c.length)}"
+      else "bad-op"
+    | _, _, _ => "bad-op"
   | _ => "bad-op"
 
 end Hc.Drv.CharHttp
